@@ -1,4 +1,4 @@
-/* Implementations behind harness/c/shim_trxcon: the ENVIRONMENT of trx_if.c
+/* Implementations behind harness/c/shim_trxif: the ENVIRONMENT of trx_if.c
  * (logging sink, FSM/timer recorders, gsm_freq102arfcn).  Nothing of trx_if.c itself. */
 #include <stdio.h>
 #include <stdarg.h>
